@@ -177,6 +177,8 @@ fn gen_commit(rng: &mut Rng, env: &Env, earlier: &[CommitId]) -> Commit {
         match rng.below(20) {
             0 => Merge::resolved(String::new()), // conflict without labels
             1 => Merge::from_vec((0..2 * sides + 1).map(|_| gen_label(rng)).collect::<Vec<_>>()),
+            // all labels empty: ConflictLabels (simple backend) reads them as "no labels"
+            2 => Merge::from_vec((0..2 * sides - 1).map(|_| String::new()).collect::<Vec<_>>()),
             _ => Merge::from_vec((0..2 * sides - 1).map(|_| gen_label(rng)).collect::<Vec<_>>()),
         }
     };
